@@ -23,7 +23,13 @@ def _worker(wid, cpu, counter, ntasks, tasks, fn, wfd, init):
             pass
         out = os.fdopen(wfd, 'w', buffering=1, encoding='utf-8')
         if init is not None:
-            init()
+            try:
+                init()
+            except BaseException as e:  # noqa
+                out.write(json.dumps({'init_error': f'{type(e).__name__}: {e}\n' +
+                                      traceback.format_exc(limit=12)}) + '\n')
+                out.flush()
+                return
         while True:
             with counter.get_lock():
                 i = counter.value
@@ -135,6 +141,13 @@ class Pool:
                                 on_result(i, msg['result'])
                     elif 'bye' in msg:
                         w['bye'] = True
+                    elif 'init_error' in msg:
+                        # the worker could not initialise: stop handing out work, report once
+                        if not any(i == -1 for i, _ in errors):
+                            errors.append((-1, 'worker initialisation failed: ' +
+                                           msg['init_error']))
+                        with counter.get_lock():
+                            counter.value = max(counter.value, ntasks)
             for fd, w in list(workers.items()):
                 if w['current'] is not None and now - w['t_start'] > self.task_timeout:
                     errors.append((w['current'], f'task exceeded the wall-clock watchdog '
